@@ -45,7 +45,18 @@ const KINDS: [CollKind; 10] = [
 pub enum CollOp {
     Add(u8),
     /// replace the object by one decoded from harness-written bytes listing these ids
-    Decode { ids: Vec<u8>, tagged: bool, indefinite: bool, wide: bool },
+    Decode {
+        ids: Vec<u8>,
+        tagged: bool,
+        indefinite: bool,
+        wide: bool,
+        /// non-zero: element occurrences are re-encoded as another producer would write them (wide heads,
+        /// indefinite arrays, nested sets without tag 258) - equal values, other bytes
+        #[serde(default)]
+        alt: u8,
+    },
+    /// add an element that was itself decoded from another producer's bytes
+    AddAlt(u8, u8),
     FromJson(Vec<u8>),
     CloneIt,
     RestartBytes,
@@ -79,18 +90,31 @@ pub enum Case {
 
 trait Obj {
     fn add(&mut self, id: u8);
+    /// add an element decoded from these bytes; false if the decoder refuses them or the kind has no such path
+    fn add_bytes(&mut self, _b: &[u8]) -> bool {
+        false
+    }
     fn bytes(&self) -> Vec<u8>;
     fn json(&self) -> Result<String, String>;
     fn boxed_clone(&self) -> Box<dyn Obj>;
 }
 
 macro_rules! coll_obj {
-    ($name:ident, $ty:ty, $elem:expr) => {
+    ($name:ident, $ty:ty, $ety:ty, $elem:expr) => {
         struct $name($ty);
         impl Obj for $name {
             fn add(&mut self, id: u8) {
                 let e = $elem(id);
                 self.0.add(&e);
+            }
+            fn add_bytes(&mut self, b: &[u8]) -> bool {
+                match <$ety>::from_bytes(b.to_vec()) {
+                    Ok(e) => {
+                        self.0.add(&e);
+                        true
+                    }
+                    Err(_) => false,
+                }
             }
             fn bytes(&self) -> Vec<u8> {
                 self.0.to_bytes()
@@ -120,6 +144,24 @@ fn e_cred(id: u8) -> csl::Credential {
 }
 fn e_cert(id: u8) -> csl::Certificate {
     let c = csl::Credential::from_keyhash(&key(id as u16 % 3).hash);
+    if id % 5 == 4 {
+        // the one certificate that nests a set (pool owners)
+        let mut owners = csl::Ed25519KeyHashes::new();
+        owners.add(&key(id as u16).hash);
+        owners.add(&key(id as u16 + 1).hash);
+        let params = csl::PoolParams::new(
+            &key(id as u16).hash,
+            &csl::VRFKeyHash::from_bytes(blake2b256(&[id, 1]).to_vec()).unwrap(),
+            &csl::BigNum::from(1000u64),
+            &csl::BigNum::from(340_000_000u64),
+            &csl::UnitInterval::new(&csl::BigNum::from(1u64), &csl::BigNum::from(20u64)),
+            &csl::RewardAddress::new(0, &c),
+            &owners,
+            &csl::Relays::new(),
+            None,
+        );
+        return csl::Certificate::new_pool_registration(&csl::PoolRegistration::new(&params));
+    }
     match id % 4 {
         0 => csl::Certificate::new_stake_registration(&csl::StakeRegistration::new(&c)),
         1 => csl::Certificate::new_stake_deregistration(&csl::StakeDeregistration::new(&c)),
@@ -129,7 +171,18 @@ fn e_cert(id: u8) -> csl::Certificate {
 }
 fn e_proposal(id: u8) -> csl::VotingProposal {
     let ra = csl::RewardAddress::new(0, &csl::Credential::from_keyhash(&key(id as u16 % 3).hash));
-    let act = if id % 2 == 0 { csl::GovernanceAction::new_info_action(&csl::InfoAction::new()) } else { csl::GovernanceAction::new_no_confidence_action(&csl::NoConfidenceAction::new()) };
+    let act = if id % 5 == 3 {
+        // an action that nests a set (committee members to remove)
+        let mut rm = csl::Credentials::new();
+        rm.add(&csl::Credential::from_keyhash(&key(id as u16).hash));
+        rm.add(&csl::Credential::from_keyhash(&key(id as u16 + 1).hash));
+        let cm = csl::Committee::new(&csl::UnitInterval::new(&csl::BigNum::from(2u64), &csl::BigNum::from(3u64)));
+        csl::GovernanceAction::new_new_committee_action(&csl::UpdateCommitteeAction::new(&cm, &rm))
+    } else if id % 2 == 0 {
+        csl::GovernanceAction::new_info_action(&csl::InfoAction::new())
+    } else {
+        csl::GovernanceAction::new_no_confidence_action(&csl::NoConfidenceAction::new())
+    };
     csl::VotingProposal::new(&act, &exec::anchor(id as u64 / 2), &ra, &csl::BigNum::from(1000u64 * (id as u64 / 4)))
 }
 fn e_vkeywit(id: u8) -> csl::Vkeywitness {
@@ -159,13 +212,13 @@ fn e_datum(id: u8) -> csl::PlutusData {
     }
 }
 
-coll_obj!(OInputs, csl::TransactionInputs, e_input);
-coll_obj!(OKeyHashes, csl::Ed25519KeyHashes, e_keyhash);
-coll_obj!(OCreds, csl::Credentials, e_cred);
-coll_obj!(OCerts, csl::Certificates, e_cert);
-coll_obj!(OProps, csl::VotingProposals, e_proposal);
-coll_obj!(OVkeys, csl::Vkeywitnesses, e_vkeywit);
-coll_obj!(OBoots, csl::BootstrapWitnesses, e_bootwit);
+coll_obj!(OInputs, csl::TransactionInputs, csl::TransactionInput, e_input);
+coll_obj!(OKeyHashes, csl::Ed25519KeyHashes, csl::Ed25519KeyHash, e_keyhash);
+coll_obj!(OCreds, csl::Credentials, csl::Credential, e_cred);
+coll_obj!(OCerts, csl::Certificates, csl::Certificate, e_cert);
+coll_obj!(OProps, csl::VotingProposals, csl::VotingProposal, e_proposal);
+coll_obj!(OVkeys, csl::Vkeywitnesses, csl::Vkeywitness, e_vkeywit);
+coll_obj!(OBoots, csl::BootstrapWitnesses, csl::BootstrapWitness, e_bootwit);
 
 /// witness-set fields are exercised through the typed setters: the object is a witness set plus
 /// the list that was handed to the setter
@@ -333,6 +386,27 @@ fn read_ids(kind: CollKind, bytes: &[u8], universe: &[(u8, Vec<u8>)]) -> Result<
     Ok(ids)
 }
 
+/// the same element as another producer may have written it
+fn alt_bytes(b: &[u8], alt: u8, pos: usize) -> Vec<u8> {
+    if alt == 0 {
+        return b.to_vec();
+    }
+    let mut r = crate::prng::Rng::new(mix(alt as u64, pos as u64));
+    if r.chance(1, 3) {
+        return b.to_vec();
+    }
+    match cbor::parse(b) {
+        Ok(n) => {
+            let mut f = cbor::Foreign::new(&mut r, 120, 150, 0, 0);
+            f.p_untag = 600;
+            let mut o = vec![];
+            f.emit(&n, &mut o);
+            o
+        }
+        Err(_) => b.to_vec(),
+    }
+}
+
 fn dedup(ids: &[u8]) -> Vec<u8> {
     let mut out = vec![];
     for i in ids {
@@ -367,7 +441,24 @@ pub fn run_coll(c: &CollCase) -> Outcome {
                     out.count("fault.F6_duplicate_add", 1);
                 }
             }
-            CollOp::Decode { ids, tagged, indefinite, wide } if matches!(kind, CollKind::WsNativeScripts | CollKind::WsPlutusData) => {
+            CollOp::AddAlt(id, alt) => {
+                let id = *id % UNIVERSE;
+                let eb = alt_bytes(&universe[id as usize].1, *alt, 0);
+                if is_ws || !obj.add_bytes(&eb) {
+                    if !is_ws {
+                        out.count("c16.decoder_rejected_encoding", 1);
+                    }
+                    applied = false;
+                } else {
+                    out.count("fault.F8_element_in_other_encoding", (eb != universe[id as usize].1) as u64);
+                    if !model.contains(&id) {
+                        model.push(id);
+                    } else {
+                        out.count("fault.F6_duplicate_add", 1);
+                    }
+                }
+            }
+            CollOp::Decode { ids, tagged, indefinite, wide, .. } if matches!(kind, CollKind::WsNativeScripts | CollKind::WsPlutusData) => {
                 // a list decoded from a peer's bytes (with repeats) is handed unmodified to the typed setter
                 let ids: Vec<u8> = ids.iter().map(|x| x % UNIVERSE).collect();
                 let mut b = vec![];
@@ -417,7 +508,7 @@ pub fn run_coll(c: &CollCase) -> Outcome {
                     applied = false;
                 }
             }
-            CollOp::Decode { ids, tagged, indefinite, wide } => {
+            CollOp::Decode { ids, tagged, indefinite, wide, alt } => {
                 if is_ws {
                     applied = false;
                 } else {
@@ -431,8 +522,12 @@ pub fn run_coll(c: &CollCase) -> Outcome {
                     } else {
                         cbor::head_w(&mut b, 4, ids.len() as u64, if *wide { 2 } else { 0 });
                     }
-                    for id in &ids {
-                        b.extend_from_slice(&universe[*id as usize].1);
+                    for (pos, id) in ids.iter().enumerate() {
+                        let eb = alt_bytes(&universe[*id as usize].1, *alt, pos);
+                        if eb != universe[*id as usize].1 {
+                            out.count("fault.F8_element_in_other_encoding", 1);
+                        }
+                        b.extend_from_slice(&eb);
                     }
                     if *indefinite {
                         b.push(0xff);
@@ -563,6 +658,7 @@ pub fn run_coll(c: &CollCase) -> Outcome {
         }
         sig = mix(sig, match op {
             CollOp::Add(_) => 1,
+            CollOp::AddAlt(..) => 12,
             CollOp::Decode { tagged, indefinite, .. } => 2 + *tagged as u64 * 2 + *indefinite as u64,
             CollOp::FromJson(_) => 7,
             CollOp::CloneIt => 8,
@@ -790,8 +886,9 @@ impl Prop for C16 {
                         (0..m).map(|_| r.below(UNIVERSE as u64) as u8).collect()
                     };
                     ops.push(match r.below(12) {
-                        0..=5 => CollOp::Add(r.below(UNIVERSE as u64) as u8),
-                        6 | 7 => CollOp::Decode { ids: ids(&mut r), tagged: r.chance(1, 2), indefinite: r.chance(1, 3), wide: r.chance(1, 4) },
+                        0..=4 => CollOp::Add(r.below(UNIVERSE as u64) as u8),
+                        5 => CollOp::AddAlt(r.below(UNIVERSE as u64) as u8, 1 + r.below(200) as u8),
+                        6 | 7 => CollOp::Decode { ids: ids(&mut r), tagged: r.chance(1, 2), indefinite: r.chance(1, 3), wide: r.chance(1, 4), alt: if r.chance(1, 2) { 1 + r.below(200) as u8 } else { 0 } },
                         8 => CollOp::FromJson(ids(&mut r)),
                         9 => CollOp::CloneIt,
                         10 => {
